@@ -123,9 +123,10 @@ type c01cSim struct {
 	maxLen  int
 	cache   *singleChannelCacheImpl
 	store   *c01cStore
-	fed     map[string]c01cEvent // per document the highest event delivered over the feed
-	pending []c01cEvent          // skipped sequences: stored, not yet delivered
-	next    uint64               // next sequence to allocate
+	fed     map[string]c01cEvent   // per document the highest event delivered over the feed
+	hist    map[string][]c01cEvent // per document every channel event written (dropped by a purge)
+	pending []c01cEvent            // skipped sequences: stored, not yet delivered
+	next    uint64                 // next sequence to allocate
 	trace   []string
 }
 
@@ -159,7 +160,7 @@ func c01cNewCache(store *c01cStore, validFrom uint64, maxLen int) *singleChannel
 }
 
 func c01cNewSim(maxLen int) *c01cSim {
-	s := &c01cSim{maxLen: maxLen, store: &c01cStore{latest: map[string]c01cEvent{}}, fed: map[string]c01cEvent{}, next: 1}
+	s := &c01cSim{maxLen: maxLen, store: &c01cStore{latest: map[string]c01cEvent{}}, fed: map[string]c01cEvent{}, hist: map[string][]c01cEvent{}, next: 1}
 	s.cache = c01cNewCache(s.store, 1, maxLen)
 	return s
 }
@@ -176,7 +177,10 @@ func (s *c01cSim) cloneCacheFor(store *c01cStore) *singleChannelCacheImpl {
 }
 
 func (s *c01cSim) clone() *c01cSim {
-	n := &c01cSim{maxLen: s.maxLen, next: s.next, fed: make(map[string]c01cEvent, len(s.fed)), store: &c01cStore{latest: make(map[string]c01cEvent, len(s.store.latest))}}
+	n := &c01cSim{maxLen: s.maxLen, next: s.next, fed: make(map[string]c01cEvent, len(s.fed)), hist: make(map[string][]c01cEvent, len(s.hist)), store: &c01cStore{latest: make(map[string]c01cEvent, len(s.store.latest))}}
+	for k, v := range s.hist {
+		n.hist[k] = v[:len(v):len(v)] // appends copy
+	}
 	for k, v := range s.store.latest {
 		n.store.latest[k] = v
 	}
@@ -196,12 +200,24 @@ func (s *c01cSim) feed(e c01cEvent, late bool) {
 	if cur, ok := s.fed[e.Doc]; !ok || cur.Seq < e.Seq {
 		s.fed[e.Doc] = e
 	}
+	// the feed delivers the mutations of one document in order and only its newest version: an older skipped version of
+	// this document can no longer arrive once a newer one was delivered
+	if len(s.pending) > 0 {
+		keep := s.pending[:0:0]
+		for _, p := range s.pending {
+			if p.Doc != e.Doc || p.Seq > e.Seq {
+				keep = append(keep, p)
+			}
+		}
+		s.pending = keep
+	}
 }
 
 func (s *c01cSim) write(doc string, flags uint8, delayed bool) {
 	e := c01cEvent{Seq: s.next, Doc: doc, Flags: flags, Old: doc == "a"}
 	s.next++
 	s.store.latest[doc] = e
+	s.hist[doc] = append(s.hist[doc], e)
 	if delayed {
 		s.pending = append(s.pending, e)
 		return
@@ -218,6 +234,19 @@ func (s *c01cSim) activeDocs() []c01cEvent {
 		}
 	}
 	return out
+}
+
+// eventFor returns the event of the document that an entry at this sequence may stand for: an event of the document
+// that is not older than the newest one delivered over the feed. (Newer events than the newest fed one are skipped
+// sequences that have not arrived; a back-fill query may have loaded any of them while it was the stored one.)
+func (s *c01cSim) eventFor(doc string, seq uint64) (c01cEvent, bool) {
+	f, fok := s.fed[doc]
+	for _, e := range s.hist[doc] {
+		if e.Seq == seq && (!fok || e.Seq >= f.Seq) {
+			return e, true
+		}
+	}
+	return c01cEvent{}, false
 }
 
 type c01cRead struct {
@@ -331,6 +360,7 @@ func (s *c01cSim) apply(sym int, r *vlib.Rand) (rd *c01cRead, res []*LogEntry, e
 			s.cache.Remove(c01cCtx, base.DefaultCollectionID, []string{doc}, time.Now().Add(time.Hour))
 			delete(s.store.latest, doc)
 			delete(s.fed, doc)
+			delete(s.hist, doc)
 			var keep []c01cEvent
 			for _, p := range s.pending {
 				if p.Doc != doc {
@@ -427,11 +457,9 @@ func (ck *c01cChecker) invariants(s *c01cSim) {
 		if _, ok := ids[l.DocID]; !ok {
 			ck.violation(s, "cachedDocIDs-misses-cached-document", fmt.Sprintf("document %s is in logs, not in cachedDocIDs", l.DocID))
 		}
-		// the entry must be an event of that document: the highest one fed or the stored one
-		f, fok := s.fed[l.DocID]
-		st, sok := s.store.latest[l.DocID]
-		if !(fok && f.Seq == l.Sequence) && !(sok && st.Seq == l.Sequence) {
-			ck.violation(s, "cached-entry-is-no-current-event-of-its-document", fmt.Sprintf("entry %s#%d; fed latest %v stored latest %v", l.DocID, l.Sequence, f, st))
+		// the entry must be an event of that document, not older than the newest one fed
+		if _, ok := s.eventFor(l.DocID, l.Sequence); !ok {
+			ck.violation(s, "cached-entry-is-no-current-event-of-its-document", fmt.Sprintf("entry %s#%d; fed latest %v stored latest %v history %v", l.DocID, l.Sequence, s.fed[l.DocID], s.store.latest[l.DocID], s.hist[l.DocID]))
 		}
 	}
 	for id := range ids {
@@ -450,7 +478,7 @@ func (ck *c01cChecker) invariants(s *c01cSim) {
 			continue
 		}
 		got, ok := seen[doc]
-		if !ok || (got != f.Seq && got != s.store.latest[doc].Seq) {
+		if !ok || got != f.Seq {
 			ck.violation(s, "incomplete-from-validFrom", fmt.Sprintf("document %s was fed at #%d >= validFrom %d but the cache holds %v(%v)", doc, f.Seq, validFrom, got, ok))
 		}
 	}
@@ -497,19 +525,10 @@ func (ck *c01cChecker) checkRead(s *c01cSim, q c01cRead, res []*LogEntry, err er
 			fail("document-returned-twice", l.DocID)
 		}
 		seen[l.DocID] = l.Sequence
-		f, fok := s.fed[l.DocID]
-		st, sok := s.store.latest[l.DocID]
-		switch {
-		case fok && f.Seq == l.Sequence:
-			if (f.Flags != c01cActive) != l.IsRemoved() {
-				fail("entry-flags-wrong", fmt.Sprintf("entry %s@%d removed=%v, event %v", l.DocID, l.Sequence, l.IsRemoved(), f))
-			}
-		case sok && st.Seq == l.Sequence:
-			if (st.Flags != c01cActive) != l.IsRemoved() {
-				fail("entry-flags-wrong", fmt.Sprintf("entry %s@%d removed=%v, event %v", l.DocID, l.Sequence, l.IsRemoved(), st))
-			}
-		default:
-			fail("entry-is-no-current-event-of-its-document", fmt.Sprintf("entry %s@%d; fed latest %v stored latest %v", l.DocID, l.Sequence, f, st))
+		if ev, ok := s.eventFor(l.DocID, l.Sequence); !ok {
+			fail("entry-is-no-current-event-of-its-document", fmt.Sprintf("entry %s@%d; fed latest %v stored latest %v history %v", l.DocID, l.Sequence, s.fed[l.DocID], s.store.latest[l.DocID], s.hist[l.DocID]))
+		} else if (ev.Flags != c01cActive) != l.IsRemoved() {
+			fail("entry-flags-wrong", fmt.Sprintf("entry %s@%d removed=%v, event %v", l.DocID, l.Sequence, l.IsRemoved(), ev))
 		}
 	}
 	// completeness: every document whose highest fed event lies in (since, hi] must be there. While skipped sequences
@@ -608,8 +627,11 @@ func TestVerif_C01_Cache(t *testing.T) {
 	}
 	var jobs []job
 	full := c01cAllSymbols()
-	depth := run.N(5, 6)
 	for _, ml := range []int{1, 2, 3} {
+		depth := run.N(5, 6)
+		if ml == 3 {
+			depth = 5
+		}
 		for _, a := range full {
 			for _, b := range full {
 				jobs = append(jobs, job{ml, []int{a, b}, depth, full})
@@ -618,7 +640,7 @@ func TestVerif_C01_Cache(t *testing.T) {
 	}
 	if run.Thorough() {
 		small := []int{c01cW0, c01cW1, c01cRemoveOldest, c01cDelayedWrite, c01cLateInsert, c01cRead0, c01cReadLimit2, c01cPurge, c01cEvict}
-		for _, ml := range []int{1, 2} {
+		for _, ml := range []int{2} {
 			for _, a := range small {
 				for _, b := range small {
 					jobs = append(jobs, job{ml, []int{a, b}, 7, small})
